@@ -845,6 +845,35 @@ impl<'a> VisitMut for Norm<'a> {
                     }
                 }
             }
+            // N23: `let Some(&x) = E else { .. };`  ==>  `let Some(__ref_x) = E else { .. }; let x = *__ref_x;`
+            // (a reference pattern copies the referent out; Verus does not support reference patterns)
+            let mut s = s;
+            let mut derefs: Vec<Stmt> = Vec::new();
+            if let Stmt::Local(l) = &mut s {
+                struct RefPat<'a> { out: &'a mut Vec<Stmt> }
+                impl<'a> VisitMut for RefPat<'a> {
+                    fn visit_pat_mut(&mut self, p: &mut syn::Pat) {
+                        if let syn::Pat::Reference(r) = p {
+                            if let syn::Pat::Ident(pi) = &*r.pat {
+                                if r.mutability.is_none() && pi.subpat.is_none() && pi.by_ref.is_none() {
+                                    let id = pi.ident.clone();
+                                    let tmp = ident(&format!("__ref_{}", id));
+                                    let m = pi.mutability;
+                                    self.out.push(parse_quote!(let #m #id = *#tmp;));
+                                    *p = parse_quote!(#tmp);
+                                    return;
+                                }
+                            }
+                        }
+                        visit_mut::visit_pat_mut(self, p);
+                    }
+                }
+                RefPat { out: &mut derefs }.visit_pat_mut(&mut l.pat);
+            }
+            if !derefs.is_empty() {
+                self.stats.bump("N23.reference_pattern_in_let");
+                pending_after.splice(0..0, derefs);
+            }
             // N12: `let mut v: Vec<_> = SET.into_iter().map(|c| Tag(c)).collect(); v.sort_by_key(|t| t.0);`
             //      ==> `let mut v: Vec<_> = v_sorted_tags(SET);`   (iterator adapters are outside Verus; trusted stub T7)
             if let Stmt::Local(l) = &s {
